@@ -333,6 +333,7 @@ class MMA:
 
         if len(self.xmin) != self.n:
             raise RuntimeError(f"Length of the xmin vector ({len(self.xmin)}) should be equal to # design variables ({self.n})")
+        self.xmin = np.asarray(self.xmin, dtype=float)  # In case the bounds are given as a list or tuple
 
         if not hasattr(self.xmax, '__len__'):
             self.xmax = self.xmax * np.ones_like(xval)
@@ -344,6 +345,7 @@ class MMA:
 
         if len(self.xmax) != self.n:
             raise RuntimeError(f"Length of the xmax vector ({len(self.xmax)}) should be equal to # design variables ({self.n})")
+        self.xmax = np.asarray(self.xmax, dtype=float)
 
         if hasattr(self.move, '__len__'):
             # Set movelimit in case of multiple are given
@@ -356,6 +358,8 @@ class MMA:
                 raise RuntimeError(f"Length of the move vector ({len(self.move)}) should be equal to number of "
                                    f"design variable signals ({len(self.variables)}) or "
                                    f"total number of design variables ({self.n}).")
+            else:
+                self.move = move_input.astype(float)
 
         fcur = 0.0
         while self.iter < self.maxIt:
